@@ -32,6 +32,8 @@ import (
 //	srvrst <id> <code>            server RST_STREAM
 //	cclose <id>                   client closes (cancels) the stream: RST_STREAM CANCEL
 //	chalf <id>                    client half-close (DATA END_STREAM)
+//	burst <sub> ...               sub = srvend:<id> srvrst:<id>:<code> settings:<n> hls:<n> (peer frames, back to back)
+//	                              | cclose:<id> new:<k> (client side, in order); the two groups run concurrently, no settle between
 //	cancelb <j>                   cancel the ctx of the (j mod #blocked)-th blocked caller
 //	sleep <ms>                    advance virtual time
 //	goaway <lastid>               server GOAWAY
@@ -57,6 +59,7 @@ type quotaH struct {
 	fr         *http2.Framer
 	mu         sync.Mutex
 	events     []string
+	lastHdr    uint32
 	callers    []*qcaller
 	byID       map[uint32]*transport.ClientStream
 	henc       *hpack.Encoder
@@ -84,6 +87,11 @@ func (h *quotaH) peerReader() {
 		switch f := f.(type) {
 		case *http2.MetaHeadersFrame:
 			e = fmt.Sprintf("H%d", f.StreamID)
+			h.mu.Lock()
+			if f.StreamID > h.lastHdr {
+				h.lastHdr = f.StreamID
+			}
+			h.mu.Unlock()
 		case *http2.RSTStreamFrame:
 			e = fmt.Sprintf("R%d:%d", f.StreamID, uint32(f.ErrCode))
 		case *http2.DataFrame:
@@ -232,26 +240,59 @@ func (h *quotaH) Op(f []string) string {
 		}
 		h.ct = ct
 	case "new":
-		k := int(atou(f[1]))
-		for i := 0; i < k; i++ {
-			ctx, cancel := context.WithCancel(context.Background())
-			if v, ok := kv(f, "dl"); ok {
-				ctx, _ = context.WithTimeout(ctx, time.Duration(atou(v))*time.Millisecond)
+		h.spawn(int(atou(f[1])), f)
+	case "burst":
+		// peer frames are written back to back from one goroutine while this goroutine performs the
+		// client-side actions: two unordered threads, no settle in between
+		var pbuf bytes.Buffer
+		pfr := http2.NewFramer(&pbuf, nil)
+		var local []func()
+		h.mu.Lock()
+		lastHdr := h.lastHdr
+		h.mu.Unlock()
+		for _, sub := range f[1:] {
+			p := strings.Split(sub, ":")
+			if (p[0] == "srvend" || p[0] == "srvrst" || p[0] == "cclose") && uint32(atou(p[1])) > lastHdr {
+				continue // a stream the peer has not seen yet: skipped (the model skips it too)
 			}
-			if v, _ := kv(f, "sz"); v == "B" {
-				ctx = metadata.NewOutgoingContext(ctx, metadata.Pairs("k", strings.Repeat("x", 4000)))
+			switch p[0] {
+			case "srvend":
+				h.hbuf.Reset()
+				h.henc.WriteField(hpack.HeaderField{Name: ":status", Value: "200"})
+				h.henc.WriteField(hpack.HeaderField{Name: "content-type", Value: "application/grpc"})
+				h.henc.WriteField(hpack.HeaderField{Name: "grpc-status", Value: "0"})
+				pfr.WriteHeaders(http2.HeadersFrameParam{StreamID: uint32(atou(p[1])), BlockFragment: h.hbuf.Bytes(), EndStream: true, EndHeaders: true})
+			case "srvrst":
+				pfr.WriteRSTStream(uint32(atou(p[1])), http2.ErrCode(atou(p[2])))
+			case "settings":
+				pfr.WriteSettings(http2.Setting{ID: http2.SettingMaxConcurrentStreams, Val: uint32(atou(p[1]))})
+			case "hls":
+				pfr.WriteSettings(http2.Setting{ID: http2.SettingMaxHeaderListSize, Val: uint32(atou(p[1]))})
+			case "cclose":
+				id := uint32(atou(p[1]))
+				local = append(local, func() {
+					if s := h.byID[id]; s != nil {
+						s.Close(context.Canceled)
+					}
+				})
+			case "new":
+				k := int(atou(p[1]))
+				local = append(local, func() { h.spawn(k, f[:0]) })
+			default:
+				return "bad-op"
 			}
-			c := &qcaller{idx: len(h.callers), cancel: cancel}
-			h.callers = append(h.callers, c)
-			h.wg.Add(1)
-			go func() {
-				defer h.wg.Done()
-				s, err := h.ct.NewStream(ctx, &transport.CallHdr{Host: "h", Method: "/s/m"}, nil)
-				h.mu.Lock()
-				c.s, c.err, c.done = s, err, true
-				h.mu.Unlock()
-			}()
 		}
+		wdone := make(chan struct{})
+		go func() {
+			defer close(wdone)
+			if pbuf.Len() > 0 {
+				h.srv.Write(pbuf.Bytes())
+			}
+		}()
+		for _, fn := range local {
+			fn()
+		}
+		<-wdone
 	case "settings":
 		var ss []http2.Setting
 		if f[1] == "none" {
@@ -306,6 +347,31 @@ func (h *quotaH) Op(f []string) string {
 		return "bad-op"
 	}
 	return h.report()
+}
+
+// spawn starts k concurrent NewStream callers (options dl=<ms>, sz=B taken from f).
+func (h *quotaH) spawn(k int, f []string) {
+	for i := 0; i < k; i++ {
+		ctx, cancel := context.WithCancel(context.Background())
+		if v, ok := kv(f, "dl"); ok {
+			ctx, _ = context.WithTimeout(ctx, time.Duration(atou(v))*time.Millisecond)
+		}
+		if v, _ := kv(f, "sz"); v == "B" {
+			ctx = metadata.NewOutgoingContext(ctx, metadata.Pairs("k", strings.Repeat("x", 4000)))
+		}
+		h.mu.Lock()
+		c := &qcaller{idx: len(h.callers), cancel: cancel}
+		h.callers = append(h.callers, c)
+		h.mu.Unlock()
+		h.wg.Add(1)
+		go func() {
+			defer h.wg.Done()
+			s, err := h.ct.NewStream(ctx, &transport.CallHdr{Host: "h", Method: "/s/m"}, nil)
+			h.mu.Lock()
+			c.s, c.err, c.done = s, err, true
+			h.mu.Unlock()
+		}()
+	}
 }
 
 func atou(s string) uint64 {
